@@ -71,6 +71,9 @@ Inductive VState :=
 | ChargingBase (bid cid : id)
 | OutOfService.
 
+(* a vehicle state together with the vehicle it belongs to (Python states carry vehicle_id) *)
+Definition VS := (id * VState)%type.
+
 (* DriverState *)
 Inductive Driver :=
 | Autonomous
@@ -108,16 +111,27 @@ Definition instr_vid (i : Instr) : id :=
   | IChargeBase v _ _ | IDispatchBase v _ | IReposition v _ | IReserveBase v _ | IOutOfService v => v
   end.
 
+(* Events (the model of Reporter.reports) *)
+Inductive Event :=
+| EvAdd (rid : id) (dep : Z)
+| EvCancel (rid : id) (dep : Z) (at_time : Z)
+| EvPickup (rid vid : id) (pickup_time : Z) (dep : Z) (value : Q)
+| EvDropoff (rid vid : id) (g : geoid) (at_time : Z)
+| EvMove (vid : id) (dist : Q) (at_time : Z)
+| EvCharge (vid sid cid : id) (et : EnergyType) (energy : Q) (price : Q) (at_time : Z)
+| EvSchedule (vid : id) (on : bool) (at_time : Z).
+
 (* SimulationState *)
 Record Sim := mkSim {
   vehicles : pmap Vehicle; stations : pmap Station; bases : pmap Base; requests : pmap Request;
   v_loc : pmap (list id); r_loc : pmap (list id); s_loc : pmap (list id); b_loc : pmap (list id);
   v_search : pmap (list id); r_search : pmap (list id); s_search : pmap (list id); b_search : pmap (list id);
   applied : pmap Instr;
-  sim_time : Z; dt : Z }.
+  sim_time : Z; dt : Z;
+  log : list Event   (* ghost: every event filed so far, newest first (the model of Reporter.reports over all flushes) *) }.
 #[export] Instance etaSim : Settable _ :=
   settable! mkSim <vehicles; stations; bases; requests; v_loc; r_loc; s_loc; b_loc;
-                   v_search; r_search; s_search; b_search; applied; sim_time; dt>.
+                   v_search; r_search; s_search; b_search; applied; sim_time; dt; log>.
 
 (* Mechatronics.  interp tables are (x, y) lists sorted by x (np.interp). *)
 Inductive MechKind := BEV | ICE.
@@ -133,16 +147,6 @@ Record Mech := mkMech {
   m_curve : list (Q * Q);   (* powercurve: energy_kwh -> kw *)
   m_curve_step : Z }.       (* step_size_seconds *)
 Definition mech_etype (m : Mech) : EnergyType := match m_kind m with BEV => Electric | ICE => Gasoline end.
-
-(* Events (the model of Reporter.reports) *)
-Inductive Event :=
-| EvAdd (rid : id) (dep : Z)
-| EvCancel (rid : id) (dep : Z) (at_time : Z)
-| EvPickup (rid vid : id) (pickup_time : Z) (dep : Z) (value : Q)
-| EvDropoff (rid vid : id) (g : geoid) (at_time : Z)
-| EvMove (vid : id) (dist : Q) (at_time : Z)
-| EvCharge (vid sid cid : id) (et : EnergyType) (energy : Q) (price : Q) (at_time : Z)
-| EvSchedule (vid : id) (on : bool) (at_time : Z).
 
 (* Environment + library oracles: everything HIVE obtains from h3 / the road network /
    configuration.  Theorems quantify over all of it. *)
